@@ -1,6 +1,8 @@
 import Props.C06
+import Props.C10
 import Props.C12
 import Props.C14
+import Props.C16
 import Props.C17
 import Props.C18
 import Props.C20
